@@ -344,6 +344,7 @@ def finish(prop: str, tier: str, rep: Report, t0: float, *, rule: str, bounds: d
            exhaustive=True, assumptions=None, extra=None, replay_confirm=None):
     """Write evidence, print KNOWN-FINDING / VIOLATION lines, exit with the contract's status."""
     known = load_known()
+    exhaustive = bool(exhaustive) and not _EARLY_STOPPED[0]
     new, matched = [], []
     for v in rep.viol:
         k = match_known(prop, v["sig"], known)
